@@ -8,14 +8,17 @@ package checks
 
 import (
 	"bytes"
+	"context"
 	"encoding/json"
 	"fmt"
 	"net/http"
 	"net/http/httptest"
+	"sort"
 	"testing"
 	"time"
 
 	"github.com/prometheus/client_golang/prometheus"
+	"google.golang.org/protobuf/types/known/timestamppb"
 	"pgregory.net/rapid"
 
 	apiv2 "github.com/prometheus/alertmanager/api/v2"
@@ -23,6 +26,7 @@ import (
 	"github.com/prometheus/alertmanager/featurecontrol"
 	"github.com/prometheus/alertmanager/matcher/compat"
 	"github.com/prometheus/alertmanager/silence"
+	pb "github.com/prometheus/alertmanager/silence/silencepb"
 
 	"verif/harness/pbt"
 )
@@ -178,5 +182,124 @@ func TestC12ApiRoundTrip(t *testing.T) {
 		Property: "C12", Name: "C12ApiRoundTrip",
 		Rule: "the real silence store behind the real API v2 handlers in a bubble; a silence is created at an instant whose sub-second phase is generated down to the nanosecond (uniform, around the half-millisecond and the last millisecond of a second) with a start in the past (replaced by that instant) or, one case in four, a start 5 min ahead with its own nanosecond part; 0-200 s later, at another generated phase, the client posts back exactly what GET /api/v2/silence/{id} (one case in three: the filtered list GET /api/v2/silences) returned with comment and / or creator and / or end changed. The edit is accepted, keeps the id, and GET shows the same start (and the same end unless it was edited). Non-trivial: a sub-millisecond phase is involved.",
 		Gen:  genC12ApiRoundTrip, Exec: execC12ApiRoundTrip,
+	})
+}
+
+// ---------------------------------------------------------------------------------------------------- C12GCPhase
+//
+// "Every silence stays queryable until its end plus the retention; pending or active silences are never garbage
+// collected", with the instants of the expiry and of the GC runs at generated sub-second phases: a GC that runs in the
+// same second as end + retention but before it keeps the silence, the first GC after that instant removes it.
+
+type c12gpScenario struct {
+	RetentionMs int64 `json:"retention_ms"` // 0 is accepted by the store
+	EndPhaseNs  int64 `json:"end_phase_ns"` // sub-second phase of the instant the silence ends (expired by hand or by its end time)
+	ByExpire    bool  `json:"by_expire"`
+	// GC runs at end + retention + offset, for each offset (nanoseconds, ascending; negative = before)
+	GCOffsetsNs []int64 `json:"gc_offsets_ns"`
+}
+
+func genC12GCPhase(t *rapid.T) c12gpScenario {
+	sc := c12gpScenario{RetentionMs: rapid.SampledFrom([]int64{0, 1, 1000, 1500, 3600_000}).Draw(t, "retention"),
+		EndPhaseNs: rapid.SampledFrom([]int64{0, 1, 250_000_000, 500_000_000, 750_000_000, 999_999_999}).Draw(t, "endPhase"), ByExpire: rapid.Bool().Draw(t, "byExpire")}
+	if rapid.IntRange(0, 2).Draw(t, "anyPhase") == 0 {
+		sc.EndPhaseNs = rapid.Int64Range(0, 999_999_999).Draw(t, "endPhaseAny")
+	}
+	offs := map[int64]bool{}
+	n := rapid.IntRange(1, 4).Draw(t, "gcs")
+	for i := 0; i < n; i++ {
+		o := rapid.SampledFrom([]int64{-3_000_000_000, -999_999_999, -600_000_000, -400_000_000, -100_000_000, -1_000_000, -1000, 1000, 1_000_000, 300_000_000, 1_200_000_000}).Draw(t, "off")
+		offs[o] = true
+	}
+	for o := range offs {
+		sc.GCOffsetsNs = append(sc.GCOffsetsNs, o)
+	}
+	sort.Slice(sc.GCOffsetsNs, func(i, j int) bool { return sc.GCOffsetsNs[i] < sc.GCOffsetsNs[j] })
+	return sc
+}
+
+func execC12GCPhase(sc c12gpScenario) (res pbt.Result) {
+	sameSecondBefore := false
+	bubble(func() {
+		compat.InitFromFlags(nopLog, featurecontrol.NoopFlags{})
+		retention := time.Duration(sc.RetentionMs) * time.Millisecond
+		sils, err := silence.New(silence.Options{Retention: retention, Logger: nopLog, Metrics: prometheus.NewRegistry(), EventRecorder: eventrecorder.NopRecorder()})
+		if err != nil {
+			res.Fail("harness", "silence.New: %v", err)
+			return
+		}
+		ctx := context.Background()
+		t0 := time.Now()
+		// the silence ends 10 s from now at the generated phase
+		end := t0.Truncate(time.Second).Add(10*time.Second + time.Duration(sc.EndPhaseNs))
+		sil := &pb.Silence{MatcherSets: []*pb.MatcherSet{{Matchers: []*pb.Matcher{{Type: pb.Matcher_EQUAL, Name: "a", Pattern: "x"}}}},
+			StartsAt: timestamppb.New(t0), EndsAt: timestamppb.New(end), CreatedBy: "c12", Comment: "c"}
+		if sc.ByExpire {
+			sil.EndsAt = timestamppb.New(end.Add(time.Hour))
+		}
+		if err := sils.Set(ctx, sil); err != nil {
+			res.Fail("harness", "Set: %v", err)
+			return
+		}
+		id := sil.Id
+		// a GC while it is active never touches it
+		time.Sleep(5 * time.Second)
+		if _, err := sils.GC(); err != nil {
+			res.Fail("harness", "GC: %v", err)
+			return
+		}
+		if _, err := sils.QueryOne(ctx, silence.QIDs(id)); err != nil {
+			res.Add(pbt.V("active-silence-collected", "an active silence (retention %v) is gone after a GC 5 s into its life: %v", retention, err))
+			return
+		}
+		time.Sleep(time.Until(end))
+		if sc.ByExpire {
+			if err := sils.Expire(ctx, id); err != nil {
+				res.Fail("harness", "Expire: %v", err)
+				return
+			}
+		}
+		limit := end.Add(retention)
+		for _, off := range sc.GCOffsetsNs {
+			at := limit.Add(time.Duration(off))
+			if d := time.Until(at); d < 0 {
+				continue // before the end itself (retention shorter than the offset): skip
+			} else {
+				time.Sleep(d)
+			}
+			now := time.Now()
+			if _, err := sils.GC(); err != nil {
+				res.Fail("harness", "GC: %v", err)
+				return
+			}
+			_, qerr := sils.QueryOne(ctx, silence.QIDs(id))
+			switch {
+			case now.Before(limit):
+				if now.Unix() == limit.Unix() {
+					sameSecondBefore = true
+				}
+				if qerr != nil {
+					res.Add(pbt.V("collected-before-retention", "a silence that ended at %s (by %s) with retention %v was removed by a GC at %s, %v before end + retention: %v",
+						end.Format(time.RFC3339Nano), map[bool]string{true: "Expire", false: "its end time"}[sc.ByExpire], retention, now.Format(time.RFC3339Nano), limit.Sub(now), qerr))
+					return
+				}
+			case now.After(limit):
+				if qerr == nil {
+					res.Add(pbt.V("kept-after-retention", "a silence that ended at %s with retention %v is still stored after a GC at %s, %v after end + retention",
+						end.Format(time.RFC3339Nano), retention, now.Format(time.RFC3339Nano), now.Sub(limit)))
+				}
+				return
+			}
+		}
+	})
+	res.NonTrivial = sameSecondBefore
+	return res
+}
+
+func TestC12GCPhase(t *testing.T) {
+	pbt.Run(t, pbt.Spec[c12gpScenario]{
+		Property: "C12", Name: "C12GCPhase",
+		Rule: "the real silence store in a bubble with retention 0, 1 ms, 1 s, 1.5 s or 1 h: a silence ends (by its end time or by Expire) at an instant with a generated sub-second phase; GC runs 5 s into its active life and then at 1-4 generated offsets (3 s before to 1.2 s after, down to 1 us) around end + retention. Before end + retention the silence is still queryable by id after the GC, the first GC after it removes it. Non-trivial: a GC ran before end + retention within the same wall-clock second.",
+		Gen:  genC12GCPhase, Exec: execC12GCPhase,
 	})
 }
